@@ -286,6 +286,18 @@ def _mergeable(
             and inner_select.args.get("where")
             and any(j.side in ("FULL", "RIGHT") for j in outer_args.get("joins", []))
         )
+        or (
+            # a computed projection (e.g. COALESCE(x.b, 0)) isn't NULL for the rows an outer join
+            # null-extends once it's evaluated above the join
+            (
+                (isinstance(from_or_join, exp.Join) and from_or_join.side in ("FULL", "LEFT", "RIGHT"))
+                or (
+                    isinstance(from_or_join, exp.From)
+                    and any(j.side in ("FULL", "RIGHT") for j in outer_args.get("joins", []))
+                )
+            )
+            and any(not isinstance(s.unalias(), exp.Column) for s in inner_select.selects)
+        )
         or (inner_select.args.get("order") and outer_scope.is_union)
         or isinstance(seq_get(inner_select.expressions, 0), exp.QueryTransform)
     ):
